@@ -15,7 +15,7 @@ def errName : Err → String
   | .eof => "eof" | .badBlocking => "badBlocking" | .macMismatch => "macMismatch"
   | .invalidTag => "invalidTag" | .seqRollover => "seqRollover" | .indexError => "indexError"
   | .structError => "structError" | .overflow => "overflow" | .decompress => "decompress"
-  | .zeroDiv => "zeroDiv"
+  | .zeroDiv => "zeroDiv" | .ignoringRekey => "ignoringRekey"
 
 def bool? (s : String) : Option Bool :=
   if s == "1" then some true else if s == "0" then some false else none
@@ -70,6 +70,10 @@ def showMsg (m : Msg) : String :=
     sendw <payloadhex> <rndhex> <wsched> → <hex accepted by the socket> ok|eof | err:<kind>
                                       (sender; `write_all` under a schedule of send() outcomes, see parseWSched)
     feed <hex> | rem <hex>          → ok                                (bytes that will arrive | `__remainder`)
+    limits <REKEY_PACKETS> <REKEY_BYTES> <PACKETS_OVERFLOW_MAX> <BYTES_OVERFLOW_MAX> | need <0|1>   → ok
+                                      (receiver's rekey accounting; default = the shipped constants, flag clear;
+                                       `cfgin` = a completed key switch: counters reset, request fulfilled;
+                                       a `read` whose accounting raises answers err:ignoringRekey)
     read <sched>                    → ok <cmd> <payloadhex> <seqno> <retries> | err:<kind>
                                       (`read_message`, called again after each NeedRekeyException as Transport.run does)
     readall <n> <cr 0|1> <sched>    → <hex> | err:<kind> | rekey        (`read_all(n, check_rekey)`, n may be negative)
@@ -82,6 +86,8 @@ structure DSt where
   r : Receiver toyPrims := {}
   rem : Bytes := []
   data : Bytes := []
+  k : RekeySt := {}                  -- the receiver's rekey accounting
+  lim : Limits := shippedLimits
 
 def parseEv (t : String) : Option Ev :=
   if t == "r" then some (.timeout true)
@@ -110,7 +116,7 @@ def driverStep (st : DSt) (line : String) : DSt × String :=
     | none => (st, "bad-op")
   | ["cfgin", c] =>
     match parseCfg c with
-    | some c => ({ st with r := st.r.setCipher c.block c.macLen c.inn }, "ok")
+    | some c => ({ st with r := st.r.setCipher c.block c.macLen c.inn, k := st.k.switched }, "ok")
     | none => (st, "bad-op")
   | ["zout", z] =>
     match parseZ z with
@@ -119,6 +125,14 @@ def driverStep (st : DSt) (line : String) : DSt × String :=
   | ["zin", z] =>
     match parseZ z with
     | some z => ({ st with r := { st.r with decomp := z } }, "ok")
+    | none => (st, "bad-op")
+  | ["limits", a, b, c, d] =>
+    match a.toNat?, b.toNat?, c.toNat?, d.toNat? with
+    | some a, some b, some c, some d => ({ st with lim := ⟨a, b, c, d⟩ }, "ok")
+    | _, _, _, _ => (st, "bad-op")
+  | ["need", b] =>
+    match bool? b with
+    | some b => ({ st with k := { st.k with need := b } }, "ok")
     | none => (st, "bad-op")
   | ["seqout", n] =>
     match n.toNat? with
@@ -162,7 +176,10 @@ def driverStep (st : DSt) (line : String) : DSt × String :=
     match parseSched sc with
     | some sc =>
       match readRetryCount st.r (sc.length + 1) 0 ⟨st.rem, st.data, sc⟩ with
-      | (.ok o sk, k) => ({ st with r := o.st, rem := sk.rem, data := sk.data }, showMsg o.msg ++ " " ++ toString k)
+      | (.ok o sk, n) =>
+        match account st.lim st.k o.raw with
+        | .ok k' => ({ st with r := o.st, rem := sk.rem, data := sk.data, k := k' }, showMsg o.msg ++ " " ++ toString n)
+        | .error e => ({ st with r := o.st, rem := sk.rem, data := sk.data }, "err:" ++ errName e)
       | (.err e, _) => (st, "err:" ++ errName e)
       | (.rekey _, _) => (st, "err:rekey-loop")
     | none => (st, "bad-op")
